@@ -13,6 +13,10 @@ import WhVerif.Lemmas.C06Affine
 import WhVerif.Lemmas.C06Filter
 import WhVerif.Lemmas.C06SecondIndel
 import WhVerif.Lemmas.C06AffineStrip
+import WhVerif.Lemmas.C06Merge
+import WhVerif.Lemmas.C06IndelCut
+import WhVerif.Lemmas.C06SecondIndelLeft
+import WhVerif.Lemmas.C06NoRefMulti
 /-!
 # C06 — allele detection never assigns the wrong allele to an error-free read: theorems about the model
 
@@ -1442,5 +1446,376 @@ example : realign true lev ⟨5, [], [['T', 'T']]⟩ none ['G', 'G', 'A', 'C', '
   | 1, hj => simp at hj; subst hj; rw [← levFast_eq_lev, ← levFast_eq_lev]; decide
   | j + 2, hj => simp at hj
 end NonVacuitySecond
+
+/-! ## Round 10: `create_read_from_group` on error-free mates / supplementary alignments
+
+`usedBy f12 primary thr r` = the alignment `r` of the group is used: (repaired F12) it is a primary alignment (a mate), or it
+has the primary's orientation and lies within the distance threshold. -/
+
+/-- `merge_group_unanimous` (no assumption on the reads): the merged read exists; every call it carries was detected on a
+used alignment of the group, and EVERY used alignment that has a call at that position has the SAME allele — two
+alignments that disagree remove the position, so merging never decides between conflicting alleles. -/
+theorem merge_group_unanimous (f12 : Bool) (group : List Aligned) (thr : Int) (primary : Aligned)
+    (hp : (group.filter (fun r => !r.supplementary)).getLast? = some primary)
+    (hn : (group.filter (fun r => !r.supplementary)).length ≤ 2) :
+    ∃ out, mergeGroup f12 group thr = some out ∧
+      (∀ x ∈ out, ∃ r ∈ group, usedBy f12 primary thr r = true ∧ x ∈ r.variants) ∧
+      (∀ x ∈ out, ∀ r ∈ group, usedBy f12 primary thr r = true → ∀ y ∈ r.variants, y.1 = x.1 → y.2.1 = x.2.1) := by
+  refine ⟨_, mergeGroup_eq f12 group thr primary hp hn, ?_, ?_⟩
+  · intro x hx
+    rw [mem_sortByPos, List.mem_filter] at hx
+    rcases foldAdd_mem _ _ x hx.1 with h | ⟨r, hr, h⟩
+    · cases h
+    · rw [List.mem_filter] at hr
+      exact ⟨r, hr.1, hr.2, h⟩
+  · intro x hx r hr hu y hy hpos
+    rw [mem_sortByPos, List.mem_filter] at hx
+    apply Classical.byContradiction
+    intro hne
+    have := foldAdd_conflict ([], []) (group.filter (usedBy f12 primary thr)) List.Pairwise.nil r
+      (List.mem_filter.2 ⟨hr, hu⟩) y hy x hx.1 hpos.symm (fun e => hne e.symm)
+    have h2 := hx.2
+    rw [hpos] at this
+    simp [this] at h2
+
+/-- `merge_group_errfree`: all alignments of the group are error-free alignments of ONE template, i.e. every call of every
+alignment is the allele `truth position` its haplotype carries.  Then merging never produces a wrong allele, no position
+is dropped as conflicting, and an allele present in one mate (or one used supplementary alignment) only is kept: every
+call of every used alignment is in the merged read with the haplotype's allele. -/
+theorem merge_group_errfree (f12 : Bool) (group : List Aligned) (thr : Int) (primary : Aligned) (truth : Nat → Nat)
+    (hp : (group.filter (fun r => !r.supplementary)).getLast? = some primary)
+    (hn : (group.filter (fun r => !r.supplementary)).length ≤ 2)
+    (herr : ∀ r ∈ group, ∀ x ∈ r.variants, x.2.1 = truth x.1) :
+    ∃ out, mergeGroup f12 group thr = some out ∧
+      (∀ x ∈ out, x.2.1 = truth x.1) ∧
+      (∀ r ∈ group, usedBy f12 primary thr r = true → ∀ x ∈ r.variants, ∃ q, (x.1, truth x.1, q) ∈ out) := by
+  have hskip := foldAdd_skip_errfree truth ([], []) (group.filter (usedBy f12 primary thr)) (by intro x h; cases h)
+    (fun r hr => herr r (List.mem_filter.1 hr).1)
+  refine ⟨_, mergeGroup_eq f12 group thr primary hp hn, ?_, ?_⟩
+  · intro x hx
+    rw [mem_sortByPos, List.mem_filter] at hx
+    rcases foldAdd_mem _ _ x hx.1 with h | ⟨r, hr, h⟩
+    · cases h
+    · exact herr r (List.mem_filter.1 hr).1 x h
+  · intro r hr hu x hx
+    obtain ⟨y, hy, hpos⟩ := foldAdd_covers ([], []) (group.filter (usedBy f12 primary thr)) r
+      (List.mem_filter.2 ⟨hr, hu⟩) x hx
+    have hyt : y.2.1 = truth y.1 := by
+      rcases foldAdd_mem _ _ y hy with h | ⟨r', hr', h⟩
+      · cases h
+      · exact herr r' (List.mem_filter.1 hr').1 y h
+    refine ⟨y.2.2, ?_⟩
+    rw [mem_sortByPos, List.mem_filter, hskip]
+    refine ⟨?_, by simp⟩
+    have : y = (x.1, truth x.1, y.2.2) := by
+      rw [← hpos, ← hyt]
+    rw [← this]; exact hy
+
+/-- … in particular (repaired F12) both mates of a pair always contribute, whatever their orientation and distance. -/
+theorem merge_group_errfree_mates (group : List Aligned) (thr : Int) (primary : Aligned) (truth : Nat → Nat)
+    (hp : (group.filter (fun r => !r.supplementary)).getLast? = some primary)
+    (hn : (group.filter (fun r => !r.supplementary)).length ≤ 2)
+    (herr : ∀ r ∈ group, ∀ x ∈ r.variants, x.2.1 = truth x.1) :
+    ∃ out, mergeGroup true group thr = some out ∧ (∀ x ∈ out, x.2.1 = truth x.1) ∧
+      (∀ r ∈ group, r.supplementary = false → ∀ x ∈ r.variants, ∃ q, (x.1, truth x.1, q) ∈ out) := by
+  obtain ⟨out, h1, h2, h3⟩ := merge_group_errfree true group thr primary truth hp hn herr
+  exact ⟨out, h1, h2, fun r hr hs => h3 r hr (by simp [usedBy, hs])⟩
+
+/-! ### non-vacuity (merging) -/
+section NonVacuityMerge
+private def m1 : Aligned := ⟨false, false, 5, 30, [(10, 1, 30), (20, 0, 30)]⟩
+private def m2 : Aligned := ⟨false, true, 40, 65, [(50, 1, 30)]⟩
+private def sup : Aligned := ⟨true, true, 18, 35, [(20, 0, 25), (33, 1, 30)]⟩
+private def truthEx (p : Nat) : Nat := if p = 20 then 0 else 1
+/-- an FR pair plus a supplementary alignment in the last primary's orientation: hypotheses hold, all four positions kept -/
+example : mergeGroup true [m1, m2, sup] 100000 = some [(10, 1, 30), (20, 0, 30), (33, 1, 30), (50, 1, 30)] := by decide
+example : ∃ out, mergeGroup true [m1, m2, sup] 100000 = some out ∧ (∀ x ∈ out, x.2.1 = truthEx x.1) ∧
+    (∀ r ∈ [m1, m2, sup], usedBy true m2 100000 r = true → ∀ x ∈ r.variants, ∃ q, (x.1, truthEx x.1, q) ∈ out) :=
+  merge_group_errfree true [m1, m2, sup] 100000 m2 truthEx rfl (by decide) (by decide)
+example : usedBy true m2 100000 sup = true ∧ usedBy true m2 100000 m1 = true := by decide
+/-- conflicting mates (impossible for error-free ones): the position is dropped, not decided -/
+example : mergeGroup true [m1, ⟨false, true, 15, 40, [(20, 1, 30)]⟩] 100000 = some [(10, 1, 30)] := by decide
+end NonVacuityMerge
+
+/-! ## Round 10: several variants in one no-reference call are independent
+
+`detectNoRef` hands ONE walker (reference/query position, anchoring flag, queue of variants in progress) from variant to
+variant.  With the repaired F16 (`f16 = true`; as-is an I operation of length `n` lets an insertion variant interfere with
+the variants up to `n` bases to its right, unless a variant with a non-empty REF at the insertion's position ends the
+queueing loop first — see the witness below) the variants do not influence each other: -/
+
+/-- `noref_multi_variant_independent` (walker level, any start state): for variants with strictly increasing normalised
+positions — SNVs, MNPs, insertions, deletions, multi-allelic, anything — over ANY CIGAR with operators 0–8, any query and
+qualities, if no single-variant walk fails, the joint walk does not fail and yields, in variant order, exactly what the
+walks that carry ONE variant alone yield: the state handed from one variant to the next is the state of a fresh walk. -/
+theorem noref_multi_variant_independent (fx : Fixes) (h16 : fx.f16 = true) (query : Seq) (quals : Option (List Nat))
+    (cigar : Cigar) (hops : ∀ p ∈ cigar, p.1 ≤ 8) (anch : Bool) (rp qp : Nat)
+    (vps : List VP) (hs : vps.Pairwise (fun a b => a.2.pos < b.2.pos))
+    (hV : ∀ vp ∈ vps, (noRefGo fx query quals anch rp qp [vp] [] cigar).2 = none) :
+    noRefGo fx query quals anch rp qp vps [] cigar =
+      (vps.flatMap (fun vp => (noRefGo fx query quals anch rp qp [vp] [] cigar).1), none) := by
+  have := noRefGo_independent fx h16 query quals cigar hops anch rp qp vps hs [] (by simp) (by simp) hV
+  simpa using this
+
+/-- … the same for a queue of variants already in progress (well-formed progress counters): queue entries and variants
+still to come are all independent of each other. -/
+theorem noref_multi_variant_independent_queue (fx : Fixes) (h16 : fx.f16 = true) (query : Seq) (quals : Option (List Nat))
+    (cigar : Cigar) (hops : ∀ p ∈ cigar, p.1 ≤ 8) (anch : Bool) (rp qp : Nat)
+    (vps : List VP) (hs : vps.Pairwise (fun a b => a.2.pos < b.2.pos))
+    (Q : List Entry) (hwf : ∀ e ∈ Q, EntryWF e)
+    (hQ : ∀ e ∈ Q, (noRefGo fx query quals anch rp qp [] [e] cigar).2 = none)
+    (hV : ∀ vp ∈ vps, (noRefGo fx query quals anch rp qp [vp] [] cigar).2 = none) :
+    noRefGo fx query quals anch rp qp vps Q cigar =
+      (Q.flatMap (fun e => (noRefGo fx query quals anch rp qp [] [e] cigar).1) ++
+       vps.flatMap (fun vp => (noRefGo fx query quals anch rp qp [vp] [] cigar).1), none) :=
+  noRefGo_independent fx h16 query quals cigar hops anch rp qp vps hs Q hwf hQ hV
+
+/-- … and for `_detect_alleles` as called by `_alignments_to_reads` (`vps` = the normalised, conflict-free variants from
+`first` on that do not lie before the alignment): the result is the concatenation of the single-variant results, so every
+variant gets the call `noref_snv_correct` / `noref_unshiftable_indel_correct` establish for it alone (their walker lemmas
+`noRefGo_snv`, `noRefGo_del_ref|alt`, `noRefGo_ins_ref|alt` hold for any variant index). -/
+theorem noref_multi_variant_independent_detect (fx : Fixes) (h16 : fx.f16 = true) (variants : List Variant) (first start : Nat)
+    (cigar : Cigar) (query : Seq) (quals : Option (List Nat)) (hops : ∀ p ∈ cigar, p.1 ≤ 8) (vps : List VP)
+    (hvps : vps = (((nonOverlapping (variants.map normalize)).filterMap
+      (fun id => ((variants.map normalize)[id]?).map (fun v => (id, v)))).drop first).dropWhile
+        (fun p => p.2.pos < start))
+    (hs : vps.Pairwise (fun a b => a.2.pos < b.2.pos))
+    (hV : ∀ vp ∈ vps, (noRefGo fx query quals false start 0 [vp] [] cigar).2 = none) :
+    detectNoRef fx variants first start cigar query quals =
+      (vps.flatMap (fun vp => (noRefGo fx query quals false start 0 [vp] [] cigar).1), none) :=
+  detectNoRef_independent fx h16 variants first start cigar query quals hops vps hvps hs hV
+
+/-! ### non-vacuity (independence) -/
+section NonVacuityMulti
+/-- read `2S 6M 2D 3M 1I 4M` at 10 over an SNV at 12 (ALT), a deletion `GT>ε` at 16 (carried), an insertion `ε>A` at 21
+(carried) and an SNV at 23 (REF): four variants in one M/D/M/I/M chain, hypotheses by evaluation -/
+private def vpsEx : List VP :=
+  [(0, ⟨12, ['C'], [['T']]⟩), (1, ⟨16, ['G', 'T'], [[]]⟩), (2, ⟨21, [], [['A']]⟩), (3, ⟨23, ['G'], [['C']]⟩)]
+private def cigEx : Cigar := [(4, 2), (0, 6), (2, 2), (0, 3), (1, 1), (0, 4)]
+private def qEx : Seq := "NNACTTACACGAACGT".toList
+example : vpsEx.Pairwise (fun a b => a.2.pos < b.2.pos) ∧ (∀ p ∈ cigEx, p.1 ≤ 8) ∧
+    (∀ vp ∈ vpsEx, (noRefGo Fixes.all qEx none false 10 0 [vp] [] cigEx).2 = none) := by decide
+example : noRefGo Fixes.all qEx none false 10 0 vpsEx [] cigEx = ([(0, 1, 30), (1, 1, 30), (2, 1, 30), (3, 0, 30)], none) := by
+  rw [noref_multi_variant_independent Fixes.all rfl qEx none cigEx (by decide) false 10 0 vpsEx (by decide) (by decide)]
+  decide
+/-- `f16` is needed: as-is an I operation of length 3 at 20 "sees" the insertion variant at 21 when that variant is walked
+alone (and calls ALT from the inserted bases), but not in the joint walk, where the SNV at 20 ends the queueing loop -/
+example : (noRefGo Fixes.asIs "ACGTAGTGACGT".toList none false 15 0 [(0, ⟨20, ['A'], [['C']]⟩), (1, ⟨21, [], [['T']]⟩)] []
+      [(0, 5), (1, 3), (0, 4)]).1 ≠
+    ([(0, ⟨20, ['A'], [['C']]⟩), (1, ⟨21, [], [['T']]⟩)] : List VP).flatMap (fun vp =>
+      (noRefGo Fixes.asIs "ACGTAGTGACGT".toList none false 15 0 [vp] [] [(0, 5), (1, 3), (0, 4)]).1) := by decide
+end NonVacuityMulti
+
+/-! ## Round 10: a second deletion / insertion of the read's haplotype entirely inside the LEFT half of the window
+(mirror of `window_is_padded_allele_second_indel`) -/
+
+/-- CIGAR `A ++ W1a ++ [(uop, L)] ++ W1b ++ [(op, len)] ++ W2 ++ B`: the second indel lies `l0 = refLen W1b + d` reference
+bases in front of the variant position, entirely inside the left half of the window.  The window's query is
+`lp ++ uq ++ g ++ a ++ rp`, the padded alleles are `lp ++ ur ++ g ++ x ++ rp` (`g` = the `l0` reference bases between the
+second indel and the variant, `ur` = the `L` deleted reference bases, `uq` = the inserted bases). -/
+theorem window_is_padded_allele_second_indel_left (f14 : Bool) (R query : Seq) (pos : Nat) (ref a uq : Seq) (alts : List Seq)
+    (A W1a W1b W2 B : Cigar) (op len d uop L start oh r0 : Nat) (hoh : 0 < oh)
+    (hW1a : W1a.all isMatchOp = true) (hW1b : W1b.all isMatchOp = true) (hW2 : W2.all isMatchOp = true)
+    (hu : uop = 2 ∨ uop = 1) (huq : uq.length = if uop = 1 then L else 0)
+    (hshape : (isMatch op = true ∧ d < len ∧ d + ref.length ≤ len ∧ a.length = ref.length ∧ r0 = len - d)
+      ∨ (op = 2 ∧ a = [] ∧ len = ref.length ∧ d = 0 ∧ 0 < len ∧ r0 = len)
+      ∨ (op = 1 ∧ ref = [] ∧ len = a.length ∧ d = 0 ∧ 0 < len ∧ r0 = 0))
+    (hpos : pos = start + refLen A + refLen W1a + (if uop = 2 then L else 0) + refLen W1b + d)
+    (hR : slice R pos ref.length = ref)
+    (hin2 : refLen W1b + d + (if uop = 2 then L else 0) < oh)
+    (hin : pos + r0 + refLen W2 ≤ R.length)
+    (hleft : oh ≤ refLen W1b + d + (if uop = 2 then L else 0) + refLen W1a ∨ endsWindow f14 A.reverse = true)
+    (hright : ref.length + oh ≤ r0 + refLen W2 ∨ endsWindow f14 B = true)
+    (hq : slice query (qLen A) (refLen W1a + (uq.length + (refLen W1b + d) + a.length) + (r0 - ref.length + refLen W2)) =
+      slice R (start + refLen A) (refLen W1a) ++ (uq ++ slice R (pos - (refLen W1b + d)) (refLen W1b + d) ++ a)
+        ++ slice R (pos + ref.length) (r0 - ref.length + refLen W2)) :
+    ∃ lp rp, window f14 ⟨pos, ref, alts⟩ query (A ++ W1a ++ (uop, L) :: (W1b ++ (op, len) :: (W2 ++ B)))
+        (A ++ W1a ++ (uop, L) :: W1b).length d ((qLen (A ++ W1a ++ (uop, L) :: W1b) + d : Nat) : Int) R oh
+      = .ok ⟨lp ++ uq ++ slice R (pos - (refLen W1b + d)) (refLen W1b + d) ++ a ++ rp,
+             (ref :: alts).map (fun x => lp ++ slice R (pos - (refLen W1b + d) - (if uop = 2 then L else 0)) (if uop = 2 then L else 0)
+               ++ slice R (pos - (refLen W1b + d)) (refLen W1b + d) ++ x ++ rp)⟩ := by
+  obtain ⟨m1, m2, hw⟩ := window_second_indel_left f14 R query pos ref a uq alts A W1a W1b W2 B op len d uop L start oh r0
+    hoh hW1a hW1b hW2 hu huq hshape hpos hR hin2 hin hleft hright hq
+  exact ⟨_, _, hw⟩
+
+/-- F11 criterion, left half: `realign` returns `k` iff `ur ++ g ++ x_k` is strictly closer to `uq ++ g ++ a` than every
+other `ur ++ g ++ x_j`. -/
+theorem realign_second_indel_left_criterion (f14 : Bool) (R query : Seq) (pos : Nat) (ref a uq : Seq) (alts : List Seq)
+    (hsym : ∀ x ∈ alts, x.head? ≠ some '<')
+    (A W1a W1b W2 B : Cigar) (op len d uop L start oh r0 : Nat) (hoh : 0 < oh)
+    (hW1a : W1a.all isMatchOp = true) (hW1b : W1b.all isMatchOp = true) (hW2 : W2.all isMatchOp = true)
+    (hu : uop = 2 ∨ uop = 1) (huq : uq.length = if uop = 1 then L else 0)
+    (hshape : (isMatch op = true ∧ d < len ∧ d + ref.length ≤ len ∧ a.length = ref.length ∧ r0 = len - d)
+      ∨ (op = 2 ∧ a = [] ∧ len = ref.length ∧ d = 0 ∧ 0 < len ∧ r0 = len)
+      ∨ (op = 1 ∧ ref = [] ∧ len = a.length ∧ d = 0 ∧ 0 < len ∧ r0 = 0))
+    (hpos : pos = start + refLen A + refLen W1a + (if uop = 2 then L else 0) + refLen W1b + d)
+    (hR : slice R pos ref.length = ref)
+    (hin2 : refLen W1b + d + (if uop = 2 then L else 0) < oh)
+    (hin : pos + r0 + refLen W2 ≤ R.length)
+    (hleft : oh ≤ refLen W1b + d + (if uop = 2 then L else 0) + refLen W1a ∨ endsWindow f14 A.reverse = true)
+    (hright : ref.length + oh ≤ r0 + refLen W2 ∨ endsWindow f14 B = true)
+    (hq : slice query (qLen A) (refLen W1a + (uq.length + (refLen W1b + d) + a.length) + (r0 - ref.length + refLen W2)) =
+      slice R (start + refLen A) (refLen W1a) ++ (uq ++ slice R (pos - (refLen W1b + d)) (refLen W1b + d) ++ a)
+        ++ slice R (pos + ref.length) (r0 - ref.length + refLen W2))
+    (k : Nat) :
+    realign f14 lev ⟨pos, ref, alts⟩ none query (A ++ W1a ++ (uop, L) :: (W1b ++ (op, len) :: (W2 ++ B)))
+        (A ++ W1a ++ (uop, L) :: W1b).length d ((qLen (A ++ W1a ++ (uop, L) :: W1b) + d : Nat) : Int) R oh = .ok (some k) ↔
+      ∃ xk, (ref :: alts)[k]? = some xk ∧ ∀ j xj, (ref :: alts)[j]? = some xj → j ≠ k →
+        lev (uq ++ slice R (pos - (refLen W1b + d)) (refLen W1b + d) ++ a)
+            (slice R (pos - (refLen W1b + d) - (if uop = 2 then L else 0)) (if uop = 2 then L else 0)
+              ++ slice R (pos - (refLen W1b + d)) (refLen W1b + d) ++ xk)
+        < lev (uq ++ slice R (pos - (refLen W1b + d)) (refLen W1b + d) ++ a)
+            (slice R (pos - (refLen W1b + d) - (if uop = 2 then L else 0)) (if uop = 2 then L else 0)
+              ++ slice R (pos - (refLen W1b + d)) (refLen W1b + d) ++ xj) := by
+  obtain ⟨lp, rp, hw⟩ := window_is_padded_allele_second_indel_left f14 R query pos ref a uq alts A W1a W1b W2 B op len d uop L
+    start oh r0 hoh hW1a hW1b hW2 hu huq hshape hpos hR hin2 hin hleft hright hq
+  have hs : isSymbolic ⟨pos, ref, alts⟩ = false := by
+    simp only [isSymbolic, List.any_eq_false]
+    intro x hx
+    simpa using hsym x hx
+  rw [realign_decision_iff f14 lev _ query _ _ _ _ R oh _ hs hw k]
+  generalize slice R (pos - (refLen W1b + d)) (refLen W1b + d) = g
+  generalize slice R (pos - (refLen W1b + d) - (if uop = 2 then L else 0)) (if uop = 2 then L else 0) = ur
+  have hcancel : ∀ x : Seq, lev (lp ++ uq ++ g ++ a ++ rp) (lp ++ ur ++ g ++ x ++ rp) = lev (uq ++ g ++ a) (ur ++ g ++ x) := by
+    intro x
+    have e1 : lp ++ uq ++ g ++ a ++ rp = lp ++ ((uq ++ g ++ a) ++ rp) := by simp [List.append_assoc]
+    have e2 : lp ++ ur ++ g ++ x ++ rp = lp ++ ((ur ++ g ++ x) ++ rp) := by simp [List.append_assoc]
+    rw [e1, e2, lev_append_left, lev_append_right]
+  simp only [List.getElem?_map, Option.map_eq_some_iff]
+  constructor
+  · rintro ⟨pk, ⟨xk, hxk, rfl⟩, hall⟩
+    refine ⟨xk, hxk, ?_⟩
+    intro j xj hxj hjk
+    have := hall j _ ⟨xj, hxj, rfl⟩ hjk
+    rw [hcancel, hcancel] at this
+    exact this
+  · rintro ⟨xk, hxk, hall⟩
+    refine ⟨_, ⟨xk, hxk, rfl⟩, ?_⟩
+    rintro j pj ⟨xj, hxj, rfl⟩ hjk
+    rw [hcancel, hcancel]
+    exact hall j xj hxj hjk
+
+/-! ### non-vacuity (left half) -/
+section NonVacuityLeft
+/-- reference `GGTTACCGGGGGG…`: the haplotype deletes `TT` at 2..3 and carries the insertion `ε>TT` at 5 (twins, mirrored);
+read `2M 2D 1M 2I 8M`, overhang 4: every hypothesis holds -/
+private def Rl : Seq := ['G', 'G', 'T', 'T', 'A', 'C', 'C', 'G', 'G', 'G', 'G', 'G', 'G']
+example : ∃ lp rp, window true ⟨5, [], [['T', 'T']]⟩ ['G', 'G', 'A', 'T', 'T', 'C', 'C', 'G', 'G', 'G', 'G', 'G', 'G']
+    ([] ++ [(0, 2)] ++ (2, 2) :: ([(0, 1)] ++ (1, 2) :: ([(0, 8)] ++ []))) ([] ++ [(0, 2)] ++ (2, 2) :: [(0, 1)]).length 0
+    ((qLen ([] ++ [(0, 2)] ++ (2, 2) :: [(0, 1)]) + 0 : Nat) : Int) Rl 4 = .ok ⟨lp ++ [] ++ slice Rl (5 - (refLen [(0, 1)] + 0)) (refLen [(0, 1)] + 0) ++ ['T', 'T'] ++ rp,
+      ([] :: [['T', 'T']]).map (fun x => lp ++ slice Rl (5 - (refLen [(0, 1)] + 0) - (if 2 = 2 then 2 else 0)) (if 2 = 2 then 2 else 0)
+        ++ slice Rl (5 - (refLen [(0, 1)] + 0)) (refLen [(0, 1)] + 0) ++ x ++ rp)⟩ :=
+  window_is_padded_allele_second_indel_left true Rl _ 5 [] ['T', 'T'] [] [['T', 'T']] [] [(0, 2)] [(0, 1)] [(0, 8)] []
+    1 2 0 2 2 0 4 0 (by decide) (by decide) (by decide) (by decide) (Or.inl rfl) (by decide)
+    (Or.inr (Or.inr ⟨rfl, rfl, rfl, rfl, by decide, rfl⟩)) (by decide) (by decide) (by decide) (by decide)
+    (Or.inl (by decide)) (Or.inl (by decide)) (by decide)
+end NonVacuityLeft
+
+/-! ## Round 10: a second deletion of the read's haplotype CUT by the right window boundary
+
+The full statement aimed at (`realign_indel_window_correct`): "for an error-free read in canonical alignment over an indel
+variant, with ANY operations around it, `realign` returns the carried allele".  That statement is FALSE as soon as a
+second indel of the same haplotype reaches into the window (finding F11).  What holds, and is proved piecewise, is:
+isolated (window inside M/=/X runs, or ended by S/H/N) ⇒ carried allele (`realign_indel_correct`); second indel entirely
+inside the right half ⇒ criterion (`realign_second_indel_criterion`); entirely inside the left half ⇒ criterion
+(`realign_second_indel_left_criterion`); second deletion cut by (or ending on) the right boundary ⇒ criterion below.
+Missing: a deletion cut by the LEFT boundary, more than one extra indel. -/
+
+/-- CIGAR `A ++ W1 ++ [(op, len)] ++ W2a ++ [(D, L)] ++ X`, the deletion starts inside the right half of the window and
+reaches or passes its end (`X` arbitrary): the window's query ends where the deletion starts, the padded alleles go on
+with the first `c = |ref| + oh - (r0 + refLen W2a)` deleted reference bases. -/
+theorem window_is_padded_allele_second_del_cut (f14 : Bool) (R query : Seq) (pos : Nat) (ref a : Seq) (alts : List Seq)
+    (A W1 W2a X : Cigar) (op len d L start oh r0 : Nat) (hoh : 0 < oh)
+    (hW1 : W1.all isMatchOp = true) (hW2a : W2a.all isMatchOp = true)
+    (hshape : (isMatch op = true ∧ d < len ∧ d + ref.length ≤ len ∧ a.length = ref.length ∧ r0 = len - d)
+      ∨ (op = 2 ∧ a = [] ∧ len = ref.length ∧ d = 0 ∧ 0 < len ∧ r0 = len)
+      ∨ (op = 1 ∧ ref = [] ∧ len = a.length ∧ d = 0 ∧ 0 < len ∧ r0 = 0))
+    (hpos : pos = start + refLen A + refLen W1 + d)
+    (hR : slice R pos ref.length = ref)
+    (hin2 : r0 + refLen W2a < ref.length + oh) (hcut : ref.length + oh ≤ r0 + refLen W2a + L)
+    (hin : pos + ref.length + oh ≤ R.length)
+    (hleft : oh ≤ refLen W1 + d ∨ endsWindow f14 A.reverse = true)
+    (hq : slice query (qLen A) (refLen W1 + d + (a.length + (r0 - ref.length + refLen W2a))) =
+      slice R (start + refLen A) (refLen W1 + d) ++ (a ++ slice R (pos + ref.length) (r0 - ref.length + refLen W2a))) :
+    ∃ lp, window f14 ⟨pos, ref, alts⟩ query (A ++ W1 ++ (op, len) :: (W2a ++ (2, L) :: X)) (A ++ W1).length d
+        ((qLen (A ++ W1) + d : Nat) : Int) R oh
+      = .ok ⟨lp ++ a ++ slice R (pos + ref.length) (r0 - ref.length + refLen W2a),
+             (ref :: alts).map (fun x => lp ++ x ++ slice R (pos + ref.length) (r0 - ref.length + refLen W2a)
+               ++ slice R (pos + r0 + refLen W2a) (ref.length + oh - (r0 + refLen W2a)))⟩ := by
+  obtain ⟨lw, hw⟩ := window_second_del_cut_right f14 R query pos ref a alts A W1 W2a X op len d L start oh r0
+    hoh hW1 hW2a hshape hpos hR hin2 hcut hin hleft hq
+  exact ⟨_, hw⟩
+
+/-- … and `realign` returns allele `k` iff `x_k ++ g ++ ur'` is strictly closer to `a ++ g` than every other
+`x_j ++ g ++ ur'` (`g` = reference between variant and deletion, `ur'` = the deleted bases inside the window). -/
+theorem realign_second_del_cut_criterion (f14 : Bool) (R query : Seq) (pos : Nat) (ref a : Seq) (alts : List Seq)
+    (hsym : ∀ x ∈ alts, x.head? ≠ some '<')
+    (A W1 W2a X : Cigar) (op len d L start oh r0 : Nat) (hoh : 0 < oh)
+    (hW1 : W1.all isMatchOp = true) (hW2a : W2a.all isMatchOp = true)
+    (hshape : (isMatch op = true ∧ d < len ∧ d + ref.length ≤ len ∧ a.length = ref.length ∧ r0 = len - d)
+      ∨ (op = 2 ∧ a = [] ∧ len = ref.length ∧ d = 0 ∧ 0 < len ∧ r0 = len)
+      ∨ (op = 1 ∧ ref = [] ∧ len = a.length ∧ d = 0 ∧ 0 < len ∧ r0 = 0))
+    (hpos : pos = start + refLen A + refLen W1 + d)
+    (hR : slice R pos ref.length = ref)
+    (hin2 : r0 + refLen W2a < ref.length + oh) (hcut : ref.length + oh ≤ r0 + refLen W2a + L)
+    (hin : pos + ref.length + oh ≤ R.length)
+    (hleft : oh ≤ refLen W1 + d ∨ endsWindow f14 A.reverse = true)
+    (hq : slice query (qLen A) (refLen W1 + d + (a.length + (r0 - ref.length + refLen W2a))) =
+      slice R (start + refLen A) (refLen W1 + d) ++ (a ++ slice R (pos + ref.length) (r0 - ref.length + refLen W2a)))
+    (k : Nat) :
+    realign f14 lev ⟨pos, ref, alts⟩ none query (A ++ W1 ++ (op, len) :: (W2a ++ (2, L) :: X)) (A ++ W1).length d
+        ((qLen (A ++ W1) + d : Nat) : Int) R oh = .ok (some k) ↔
+      ∃ xk, (ref :: alts)[k]? = some xk ∧ ∀ j xj, (ref :: alts)[j]? = some xj → j ≠ k →
+        lev (a ++ slice R (pos + ref.length) (r0 - ref.length + refLen W2a))
+            (xk ++ slice R (pos + ref.length) (r0 - ref.length + refLen W2a)
+              ++ slice R (pos + r0 + refLen W2a) (ref.length + oh - (r0 + refLen W2a)))
+        < lev (a ++ slice R (pos + ref.length) (r0 - ref.length + refLen W2a))
+            (xj ++ slice R (pos + ref.length) (r0 - ref.length + refLen W2a)
+              ++ slice R (pos + r0 + refLen W2a) (ref.length + oh - (r0 + refLen W2a))) := by
+  obtain ⟨lp, hw⟩ := window_is_padded_allele_second_del_cut f14 R query pos ref a alts A W1 W2a X op len d L
+    start oh r0 hoh hW1 hW2a hshape hpos hR hin2 hcut hin hleft hq
+  have hs : isSymbolic ⟨pos, ref, alts⟩ = false := by
+    simp only [isSymbolic, List.any_eq_false]
+    intro x hx
+    simpa using hsym x hx
+  rw [realign_decision_iff f14 lev _ query _ _ _ _ R oh _ hs hw k]
+  generalize slice R (pos + ref.length) (r0 - ref.length + refLen W2a) = g
+  generalize slice R (pos + r0 + refLen W2a) (ref.length + oh - (r0 + refLen W2a)) = ur
+  have hcancel : ∀ x : Seq, lev (lp ++ a ++ g) (lp ++ x ++ g ++ ur) = lev (a ++ g) (x ++ g ++ ur) := by
+    intro x
+    have e1 : lp ++ a ++ g = lp ++ (a ++ g) := by simp [List.append_assoc]
+    have e2 : lp ++ x ++ g ++ ur = lp ++ (x ++ g ++ ur) := by simp [List.append_assoc]
+    rw [e1, e2, lev_append_left]
+  simp only [List.getElem?_map, Option.map_eq_some_iff]
+  constructor
+  · rintro ⟨pk, ⟨xk, hxk, rfl⟩, hall⟩
+    refine ⟨xk, hxk, ?_⟩
+    intro j xj hxj hjk
+    have := hall j _ ⟨xj, hxj, rfl⟩ hjk
+    rw [hcancel, hcancel] at this
+    exact this
+  · rintro ⟨xk, hxk, hall⟩
+    refine ⟨_, ⟨xk, hxk, rfl⟩, ?_⟩
+    rintro j pj ⟨xj, hxj, rfl⟩ hjk
+    rw [hcancel, hcancel]
+    exact hall j xj hxj hjk
+
+/-! ### non-vacuity (cut deletion) -/
+section NonVacuityCut
+/-- reference `GGACCTTGGGGGG`, insertion `ε>TT` at 5; the haplotype also deletes `TTGG` at 5..8, overhang 3: the deletion
+is cut by the window (`c = 3`); read `5M 2I 4D 4M` -/
+example : window true ⟨5, [], [['T', 'T']]⟩ ['G', 'G', 'A', 'C', 'C', 'T', 'T', 'G', 'G', 'G', 'G']
+    ([] ++ [(0, 5)] ++ (1, 2) :: ([] ++ (2, 4) :: [(0, 4)])) ([] ++ [(0, 5)]).length 0
+    ((qLen ([] ++ [(0, 5)]) + 0 : Nat) : Int) Rt 3 =
+    .ok ⟨['A', 'C', 'C', 'T', 'T'], [['A', 'C', 'C', 'T', 'T', 'G'], ['A', 'C', 'C', 'T', 'T', 'T', 'T', 'G']]⟩ := by decide
+example : ∃ lp, window true ⟨5, [], [['T', 'T']]⟩ ['G', 'G', 'A', 'C', 'C', 'T', 'T', 'G', 'G', 'G', 'G']
+    ([] ++ [(0, 5)] ++ (1, 2) :: ([] ++ (2, 4) :: [(0, 4)])) ([] ++ [(0, 5)]).length 0
+    ((qLen ([] ++ [(0, 5)]) + 0 : Nat) : Int) Rt 3 = .ok ⟨lp ++ ['T', 'T'] ++ slice Rt (5 + 0) (0 - 0 + refLen []),
+      ([] :: [['T', 'T']]).map (fun x => lp ++ x ++ slice Rt (5 + 0) (0 - 0 + refLen []) ++ slice Rt (5 + 0 + refLen []) (0 + 3 - (0 + refLen [])))⟩ :=
+  window_is_padded_allele_second_del_cut true Rt _ 5 [] ['T', 'T'] [['T', 'T']] [] [(0, 5)] [] [(0, 4)] 1 2 0 4 0 3 0
+    (by decide) (by decide) (by decide) (Or.inr (Or.inr ⟨rfl, rfl, rfl, rfl, by decide, rfl⟩)) (by decide) (by decide)
+    (by decide) (by decide) (by decide) (Or.inl (by decide)) (by decide)
+end NonVacuityCut
+
 
 end WhVerif.Props.C06
